@@ -15,8 +15,9 @@ RULE = ("one PRNG. pwl main stream: 2-7 keypoints, units 1-3, none/increasing, a
         "parameters zero/small/dyadic/|p|<=12, float32 + float64; inputs on the derived keypoints, between, outside, "
         "far outside, at the missing value; shared-parameter cases carry the pairwise clauses. call-forms stream: the "
         "documented unit-broadcast forms of keypoint_output_parameters with units>1, plus invalid configurations "
-        "(model and code must reject alike). huge stream: |param| 1e3..1e4 (oracle only, F-C15-b). degenerate stream: "
-        "keypoint_input_min == keypoint_input_max, num_keypoints = 0 (oracle only). cdf stream: input dims 1-6, "
+        "incl. keypoint_input_min == keypoint_input_max (model and code must reject alike); the (batch, 1, size) form must "
+        "be accepted and equal the hand-tiled call. huge stream: |param| 1e3..1e4 (oracle only, F-C15-b). degenerate "
+        "stream: num_keypoints = 0 for CDF / cdf_fn (both and the model must reject). cdf stream: input dims 1-6, "
         "sparsity 1-3, 1-4 keypoints, relu6/sigmoid, mean/none/geometric_mean, fixed/learned_shared/learned_per_input "
         "scaling with raw (possibly negative) values pushed through the layer's constraint; cdf_fn with None / "
         "broadcast / exp-transformed scaling; every base point paired with copies raising ONE input.")
@@ -28,7 +29,7 @@ ASSUMPTIONS = ["float32 bounds carry 1e-6*magnitude slack; monotonicity / equali
                "geometric mean: oracle only (exp/log are not rational); its bounds / monotonicity are proved over the reals",
                "rank-2 keypoint_output_parameters with units > 1 are rejected by design (error message + the repo's own "
                "test_suite_raises pin it) although the docstring lists the form: counted, not reported; the rank-3 form "
-               "with a unit axis of size 1 is finding F-C15-c"]
+               "with a unit axis of size 1 is accepted since ab7779b (fixed F-C15-c) and part of the main stream"]
 
 EPS, RTOL = alt.EPS, alt.RTOL
 PER_CLASS = 25      # recorded failures per (key, clause): one systematic class must not exhaust the evidence buffer
@@ -45,8 +46,8 @@ def fail(ctx, clause, key, case, observed, detail=""):
 
 # ================================================================================ pwl_calibration_fn
 def pwl_key(case):
-  cls = {"main": "main", "huge": "softmax_underflow", "zero_range": "zero_input_range",
-         "forms": "units_broadcast_output_params"}[case["stream"]]
+  cls = {"main": "main", "huge": "softmax_underflow", "forms": "units_broadcast_output_params",
+         "invalid": "invalid_configuration"}[case["stream"]]
   return dict(fn="pwl_calibration_fn", cls=cls)
 
 
@@ -170,8 +171,8 @@ def gen_forms(rng):
       case["in_form"] = rng.choice(["r2", "r3_1"])
     return case
   case["stream"] = "invalid"
-  bad = rng.choice(["none_clamp", "inc_cyclic", "omin_gt_omax", "imin_gt_imax", "mov_without_miv", "out_size",
-                    "input_cols", "units_rows"])
+  bad = rng.choice(["none_clamp", "inc_cyclic", "omin_gt_omax", "imin_gt_imax", "zero_input_range",
+                    "zero_input_range", "mov_without_miv", "out_size", "input_cols", "units_rows"])
   case["bad"] = bad
   if bad == "none_clamp":
     case["mono"], case["clamp_min"] = "none", True
@@ -181,6 +182,8 @@ def gen_forms(rng):
     case["omin"], case["omax"] = case["omax"] + 1, case["omin"]
   elif bad == "imin_gt_imax":
     case["imin"], case["imax"] = case["imax"], case["imin"]
+  elif bad == "zero_input_range":
+    case["imax"] = case["imin"]
   elif bad == "mov_without_miv":
     case["miv"], case["mov"], case["miss"] = None, Fraction(1, 2), "none"
   elif bad == "out_size":
@@ -213,6 +216,10 @@ def run_forms(case, rng):
   try:
     y = cp.pwl_calibration_fn.python_function(x, kin, kout, **alt.pwl_kwargs(case))
     real.update(y=y.numpy(), err=None)
+    if case["forms_kind"] == "unit_bcast" and case["out_form"] == "r3_1":
+      # the same call with the parameter row tiled over units by hand
+      real["tiled"] = cp.pwl_calibration_fn.python_function(
+          x, kin, tf.tile(kout, [1, case["units"], 1]), **alt.pwl_kwargs(case)).numpy()
   except Exception as e:
     real.update(y=None, err=classify_exc(e))
   rows = [[col[b] for col in case["x"]] for b in range(case["B"])]
@@ -229,15 +236,24 @@ def check_forms(ctx, case, real, replies):
     ctx.disagree("alt.pwlfn.errors", case, realr, model, "accept / reject")
   else:
     ctx.agree("alt.pwlfn.errors")
-  if case["forms_kind"] == "unit_bcast" and real["err"]:
+  if case["forms_kind"] == "unit_bcast":
     if case["out_form"] == "r3_1":
-      fail(ctx, "call_forms", pwl_key(case), case, real["err"],
-           "documented form keypoint_output_parameters (batch, 1, size) with units=%d rejected" % case["units"])
-    else:
+      if real["err"]:
+        fail(ctx, "call_forms", pwl_key(case), case, real["err"],
+             "documented form keypoint_output_parameters (batch, 1, size) with units=%d rejected" % case["units"])
+      elif real["y"].shape != real["tiled"].shape or not np.array_equal(real["y"], real["tiled"]):
+        fail(ctx, "call_forms", pwl_key(case), case, dict(broadcast=real["y"], tiled=real["tiled"]),
+             "broadcast over units differs from the hand-tiled parameters")
+      else:
+        ctx.count("pwl-forms:unit-broadcast-equals-tiling")
+    elif real["err"]:
       # rank-2 parameters with units > 1: rejected on purpose ("should be 3 dimensional when units > 1", pinned by
       # conditional_pwl_calibration_test.test_suite_raises) although the docstring lists the form
       ctx.count("pwl-forms:rank2-with-units-rejected-by-design")
   if case["forms_kind"] == "invalid" and not real["err"]:
+    if case.get("bad") == "zero_input_range" and not np.all(np.isfinite(real["y"])):
+      fail(ctx, "finite", dict(fn="pwl_calibration_fn", cls="zero_input_range"), case, real["y"],
+           "keypoint_input_min == keypoint_input_max accepted and NaN returned")
     ctx.notes.append("invalid configuration accepted: %s" % case.get("bad"))
   ctx.case(sig=("pwl-forms", case["forms_kind"], case.get("bad"), case["out_form"], case["units"], realr), sample=case)
 
@@ -326,42 +342,51 @@ def check_cdf(ctx, case, real, replies):
 
 
 # ---------------------------------------------------------------- degenerate configurations
-def run_zero_keypoints(ctx, rng):
+def gen_zero_keypoints(rng):
+  I, U = rng.randint(1, 3), rng.randint(1, 2)
+  X = [[Fraction(rng.randint(-8, 8), 8) for _ in range(I)] for _ in range(3)]
+  return dict(stream="zero_keypoints", I=I, U=U, X=X)
+
+
+def run_zero_keypoints(case):
+  """CDF(num_keypoints=0) and cdf_fn without basis functions: rejected up front (575725d / 4d4b844), like the model"""
   tf = alt.quiet_tf()
   import tensorflow_lattice as tfl
   from tensorflow_lattice.python import conditional_cdf as cc
-  I, U = rng.randint(1, 3), rng.randint(1, 2)
-  X = np.array([[rng.randint(-8, 8) / 8.0 for _ in range(I)] for _ in range(3)], dtype=np.float32)
-  case = dict(stream="zero_keypoints", I=I, U=U, X=X.tolist())
+  I, U = case["I"], case["U"]
+  X = np.array([[float(v) for v in row] for row in case["X"]], dtype=np.float32)
+  real = {}
   for which, f in (("CDF", lambda: tfl.layers.CDF(num_keypoints=0, units=U)(tf.constant(X)).numpy()),
                    ("cdf_fn", lambda: cc.cdf_fn.python_function(tf.constant(X), tf.zeros((1, I, 0, U)), units=U).numpy())):
-    key = dict(fn=which, cls="zero_keypoints")
     try:
-      y = f()
-      if not np.all(np.isfinite(y)):
-        fail(ctx, "finite", key, dict(case, which=which), y, "num_keypoints = 0 is accepted and returns NaN")
+      real[which] = ("ok", f())
     except Exception as e:
-      ctx.count("zero-keypoints-rejected:" + which)
-    ctx.case(sig=("cdf-zero-keypoints", which, I, U), nontrivial=False, sample=case)
+      real[which] = (classify_exc(e), None)
+  lines = ["alt.cdflayer relu6 mean 1 %d 0 %d 0 1 _ %s" % (U, U, frl2(case["X"])),
+           "alt.cdffn relu6 mean 1 %d 0 %d none none none _ _ %s" % (U, U, frl(case["X"][0]))]
+  return lines, real
 
 
-def replay_zero_keypoints(ctx, failure):
-  import random
-  run_zero_keypoints(ctx, random.Random(0))
+def check_zero_keypoints(ctx, case, real, replies):
+  for which, reply in zip(("CDF", "cdf_fn"), replies):
+    status, y = real[which]
+    model = reply if reply.startswith("ERR") else "ok"
+    if model != status:
+      ctx.disagree("alt.cdf.errors", dict(case, which=which), status, model, "accept / reject without keypoints")
+    else:
+      ctx.agree("alt.cdf.errors")
+    if status == "ok" and not np.all(np.isfinite(y)):
+      fail(ctx, "finite", dict(fn=which, cls="zero_keypoints"), dict(case, which=which), y,
+           "num_keypoints = 0 is accepted and returns NaN")
+    ctx.count("zero-keypoints:%s:%s" % (which, status))
+  ctx.case(sig=("cdf-zero-keypoints", case["I"], case["U"]), nontrivial=False, sample=case)
 
 
 # ================================================================================ driver of the run
-def gen_zero_range(rng):
-  case = alt.gen_pwlfn(rng, shared_only=True)
-  case["stream"] = "zero_range"
-  case["dtype"] = "float32"
-  case["imax"] = case["imin"]
-  case["entry"] = "python"
-  return case
-
-
 def do_case(case, rng=None):
   s = case.get("stream")
+  if s == "zero_keypoints":
+    return run_zero_keypoints(case)
   if s in ("forms", "invalid"):
     return run_forms(case, rng)
   if case.get("pair") == "cdffn-layer":
@@ -374,6 +399,8 @@ def do_case(case, rng=None):
 
 def check_any(ctx, case, real, replies):
   s = case.get("stream")
+  if s == "zero_keypoints":
+    return check_zero_keypoints(ctx, case, real, replies)
   if s in ("forms", "invalid"):
     return check_forms(ctx, case, real, replies)
   if case.get("pair") == "cdffn-layer":
@@ -393,8 +420,8 @@ def run(ctx):
     c = alt.gen_pwlfn(rng, stream="huge", shared_only=True)
     c["entry"] = "python"
     cases.append(c)
-  for _ in range(ctx.n(4, 20)):
-    cases.append(gen_zero_range(rng))
+  for _ in range(ctx.n(3, 12)):
+    cases.append(gen_zero_keypoints(rng))
   for _ in range(ctx.n(260, 5000)):
     cases.append(gen_cdf(rng))
   items, lines = [], []
@@ -407,8 +434,6 @@ def run(ctx):
   for case, real, k in items:
     check_any(ctx, case, real, replies[pos:pos + k])
     pos += k
-  for _ in range(ctx.n(2, 6)):
-    run_zero_keypoints(ctx, rng)
   bad = [r for r in replies if r == "bad-op"]
   if bad:
     ctx.disagree("driver.bad-op", {}, None, None, "%d malformed op lines" % len(bad))
@@ -416,8 +441,8 @@ def run(ctx):
 
 def replay(ctx, failure):
   case = alt.unjson(failure["case"])
-  if case.get("stream") == "zero_keypoints":
-    return replay_zero_keypoints(ctx, failure)
+  if case.get("stream") == "zero_range":      # witnesses recorded before ff5f96e: now an invalid configuration
+    case.update(stream="invalid", forms_kind="invalid", bad="zero_input_range")
   import random
   ls, real = do_case(case, random.Random(0))
   check_any(ctx, case, real, run_driver(ls) if ls else [])
